@@ -27,6 +27,7 @@ ASSUMPTIONS = [
     "'**' as the root component of an absolute pattern is not generated (the statement is silent about it)",
     "strict-mode clauses are only checked on trees with sibling-unique names (case-insensitively unique when ignorecase)",
     "the oracle never reads Resolver._match_cache; it only varies it",
+    "names with characters whose case mappings disagree or change length (sharp s, ligatures, dotless i, Kelvin sign) are judged only by what holds under any case folding: wildcard-only patterns match by length, a pattern spelled exactly like a name matches that node, case-sensitive literals match exactly, and results do not depend on the query history",
     "KF-C08-1: a strict result shorter than the relaxed one is tolerated only if the reference met a '..'-above-root dead end inside a '**' expansion below a wildcard component, and the strict list is then a subsequence of the relaxed list",
 ]
 
@@ -126,7 +127,65 @@ def check_query(case, nodes, labels, preorder_index, ic, start, pattern, unique,
     return nontrivial, bool(exp)
 
 
+SPECIAL_NAMES = ["\u00df", "stra\u00dfe", "STRASSE", "strasse", "\ufb01le", "FILE", "file", "\u0131", "I", "i", "\u0130", "\u212a", "k", "K", "\u017f", "s", "\u0149", "\u01f0x"]
+
+
+def check_special(case, acc):
+    """Names with characters whose upper()/lower()/casefold() disagree or change length (sharp s, ligatures, dotless i,
+    Kelvin sign ...).  The statement does not say which case folding applies, so only what holds under ANY folding is
+    judged: patterns made of wildcards alone match by length, a pattern spelled exactly like a name matches that node,
+    case-sensitive literal patterns match exactly the equally named nodes, and no result depends on earlier queries."""
+    cls = rr.make_class("/", "name")
+    top = cls("top")
+    kids = []
+    for name in case["names"]:
+        kid = cls(name)
+        kid.parent = top
+        kids.append(kid)
+    labels = forest.Labels([top] + kids)
+    queries = []
+    for name in case["names"]:
+        queries += [name, "?" * len(name), "?" * (len(name) + 1), "*", "?*", name[:1] + "*", "*" + name[-1:]]
+    queries = sorted(set(queries))
+
+    def ask(ic, pattern):
+        out = run(Resolver("name", ignorecase=ic, relax=True).glob, top, pattern)
+        if out[0] != "ok":
+            raise Violation("relaxed-raises", "glob(top, %r) ignorecase=%s raised %s on names %r" % (pattern, ic, out[1], case["names"]))
+        return out[1]
+
+    results = {}
+    orders = [queries, list(reversed(queries)), queries[::2] + queries[1::2]]
+    for round_no, order in enumerate(orders):
+        Resolver._match_cache.clear()
+        for ic in ((False, True) if round_no != 1 else (True, False)):
+            for pattern in order:
+                got = ask(ic, pattern)
+                key = (ic, pattern)
+                if key in results and [id(n) for n in results[key]] != [id(n) for n in got]:
+                    raise Violation("history-dependence", "glob(top, %r) ignorecase=%s gives %s after one query history and %s after another (names %r)" % (pattern, ic, labels.labels(results[key]), labels.labels(got), case["names"]))
+                results[key] = got
+    for (ic, pattern), got in results.items():
+        ids = {id(n) for n in got}
+        if set(pattern) <= {"?", "*"}:
+            need = pattern.count("?")
+            want = [k for k in kids if (len(k.name) >= need if "*" in pattern else len(k.name) == need)]
+            if ids != {id(k) for k in want}:
+                raise Violation("relaxed-set", "wildcard-only pattern %r ignorecase=%s matches %s, by length it must match %s (names %r)" % (pattern, ic, labels.labels(got), labels.labels(want), case["names"]))
+        else:
+            same = [k for k in kids if k.name == pattern]
+            if not {id(k) for k in same} <= ids:
+                raise Violation("relaxed-set", "pattern %r ignorecase=%s does not match the node of exactly that name (got %s, names %r)" % (pattern, ic, labels.labels(got), case["names"]))
+            if not ic and not rr.is_wild(pattern) and ids != {id(k) for k in same}:
+                raise Violation("relaxed-set", "case-sensitive literal pattern %r matches %s (names %r)" % (pattern, labels.labels(got), case["names"]))
+    acc.evaluations += len(results) - 1
+    acc.nontrivial(True)
+    acc.tag("special_casing_character_cases")
+
+
 def check_case(case, acc):
+    if case.get("kind") == "special":
+        return check_special(case, acc)
     nodes = rr.build(case)
     labels = forest.Labels(nodes)
     _once(case, acc, nodes, labels, clear=not case.get("keep_cache"))
@@ -194,10 +253,10 @@ def random_cases(draw):
     small = st.text(alphabet=alphabet, min_size=1, max_size=3).filter(lambda s: s not in (".", "..", "**"))
     pool = draw(st.lists(small, min_size=2, max_size=4))
     names = [draw(st.one_of(st.sampled_from(pool), st.sampled_from(pool), small, st.sampled_from(pool).map(lambda s: s + "\n"), st.sampled_from(pool).map(lambda s: s.swapcase()))) for _ in range(size)]
-    names = [n for n in names]
+    names = [{"tag": n} if draw(st.integers(0, 7)) == 0 and "\n" not in n else n for n in names]  # some names are str-subclass objects whose str() differs
     if draw(st.integers(0, 9)) < 7:
         names = uniquify(names, parents)
-    texts = list(names)
+    texts = [rr.name_text(n) for n in names]
 
     def qmark(s):
         return s[:-1] + "?"
@@ -278,6 +337,7 @@ def plan(tier, seed):
     max_nodes, maxlen = (4, 3) if tier == "quick" else (5, 4)
     tasks = [{"engine": "enum", "max_nodes": max_nodes, "maxlen": maxlen, "index": i, "count": nshards * 2} for i in range(nshards * 2)]
     tasks += [{"engine": "hyp", "examples": examples, "seed": seed * 1000 + i} for i in range(nshards)]
+    tasks += [{"engine": "special", "seed": seed * 1000 + 700 + i, "examples": 8 if tier == "quick" else 60} for i in range(4)]
     if tier == "thorough":
         # coverage-guided supplement: 16 libFuzzer campaigns on the same strategy + oracle (skipped if atheris is unavailable)
         tasks += [{"engine": "fuzz", "runs": 4000, "seed": seed * 100 + i + 1} for i in range(nshards)]
@@ -289,6 +349,9 @@ def run_task(task, acc):
         from ..core import run_fuzz_task
 
         return run_fuzz_task(PROP_ID, task, acc)
+    if task["engine"] == "special":
+        strat = st.lists(st.sampled_from(SPECIAL_NAMES), min_size=2, max_size=6, unique=True).map(lambda names: {"kind": "special", "names": names})
+        return acc.run_hypothesis(check_case, strat, task["examples"], task["seed"])
     if task["engine"] == "enum":
         acc.run_enum(check_case, _enum_cases(task["max_nodes"], task["maxlen"], task["index"], task["count"]))
     else:
